@@ -67,6 +67,7 @@ type pcase struct {
 	Cur         proto.Message
 	Writes      []proto.Message
 	Ops         []cop
+	Sched       string // vfree only: 'w' = next write, 's' = the subscriber receives one change
 }
 
 type pcaseJSON struct {
@@ -80,10 +81,11 @@ type pcaseJSON struct {
 	Cur         msgJSON   `json:"cur"`
 	Writes      []msgJSON `json:"writes,omitempty"`
 	Ops         []cop     `json:"ops,omitempty"`
+	Sched       string    `json:"sched,omitempty"`
 }
 
 func (c pcase) json() pcaseJSON {
-	j := pcaseJSON{Op: c.Kind, Spec: c.Spec, NoDup: c.NoDup, Type: string(c.Type.Descriptor().FullName()), Mask: c.Mask, Inc: c.Inc, UpdatesOnly: c.UpdatesOnly, Cur: toJSON(c.Cur)}
+	j := pcaseJSON{Op: c.Kind, Spec: c.Spec, NoDup: c.NoDup, Type: string(c.Type.Descriptor().FullName()), Mask: c.Mask, Inc: c.Inc, UpdatesOnly: c.UpdatesOnly, Cur: toJSON(c.Cur), Sched: c.Sched}
 	for _, w := range c.Writes {
 		j.Writes = append(j.Writes, toJSON(w))
 	}
@@ -99,7 +101,7 @@ func (j pcaseJSON) decode() (pcase, error) {
 	if err != nil {
 		return pcase{}, err
 	}
-	c := pcase{Kind: j.Op, Spec: j.Spec, NoDup: j.NoDup, Type: mt, Mask: j.Mask, Inc: j.Inc, UpdatesOnly: j.UpdatesOnly}
+	c := pcase{Kind: j.Op, Spec: j.Spec, NoDup: j.NoDup, Type: mt, Mask: j.Mask, Inc: j.Inc, UpdatesOnly: j.UpdatesOnly, Sched: j.Sched}
 	if c.Cur, err = fromJSON(j.Cur); err != nil {
 		return c, err
 	}
